@@ -8,7 +8,7 @@ FACT_MODULES = ['Precis.Facts.Prof']
 
 def correspondence(ctx):
     corr = Corr()
-    impl = rle_check(ctx, corr, ['widthmap'], ['widthmap'])
+    impl = rle_check(ctx, corr, ['widthmap', 'width_p'], ['widthmap', 'width_p'])
     keys = [s_ for s_, e, v in impl['widthmap'] for s_ in range(s_, e + 1) if v != 'none' and s_ < 0x110000]
     alpha = xa(ctx, PLAIN + [0xFF21, 0xFF76, 0xFFE0, 0x3000] + [0xB5, 0x2460, 0xFB01], 5)
     cases = []
